@@ -597,7 +597,7 @@ type harness struct {
 	lastQEv      *poolEvent // the last quiescent run (recorded or not)
 	lastSeq      uint64
 	noRecord     bool           // keep counters only (long soak runs)
-	evCount      map[string]int // events by kind (recorded or not, no-op ticks excluded)
+	evCount      map[string]int // events by kind, recorded or not (no-op eviction ticks excluded)
 	nRemoved     int
 	nReinjected  int
 	qKept        bool       // the last recorded event is a quiescent run
